@@ -1460,6 +1460,8 @@ void C2sStreamManager::onResumed(const SmResumed &resumed)
 void C2sStreamManager::onResumeFailed(const SmFailed &)
 {
     q->debug(u"Stream resumption failed"_s);
+    // the server does not know the session (any more), it cannot be resumed later either
+    m_canResume = false;
 }
 
 bool C2sStreamManager::setResumeAddress(const QString &address)
